@@ -51,17 +51,30 @@ def proofs(tier, workroot):
     sys.path.insert(0, os.path.join(here, '..', 'shared'))
     import nlguard_proofs
     # K2: brace removal (convert_brace) changes only the brace chunk and deletes the adjacent newline only under the SafeToDeleteNl() guard
-    return [p] + [q for q in nlguard_proofs.all_proofs() if q.name in ('SafeToDeleteNl', 'convert_brace')]
+    gates = [
+        Proof('do_braces_gates', impl='contracts/C04/gates.impl.cpp', spec='contracts/C04/gates.spec.c', harness='h_do_braces_gates', plain=True, no_contract=True, canaries=2, rules={},
+              nondet_static='.*(optv_|cpd|g_nav_fuel).*', slice_formula=True, unwind=8, expect=['postcondition: do_braces'],
+              functions=['braces.cpp:do_braces (fragment: the option gates)'],
+              mutants=[('removal_under_add', r'options::mod_full_brace_while\(\)\) & IARF_REMOVE\)', 'options::mod_full_brace_while()) & IARF_ADD)', 'postcondition'),
+                       ('case_break_unconditional', r'if \(options::mod_move_case_break\(\)\)', 'if (true)', 'postcondition')]),
+        Proof('do_parens_gates', impl='contracts/C04/gates.impl.cpp', spec='contracts/C04/gates.spec.c', harness='h_do_parens', plain=True, no_contract=True, canaries=2, rules={},
+              nondet_static='.*(optv_|cpd|g_nav_fuel).*', slice_formula=True, unwind=8, expect=['postcondition: do_parens'],
+              cbmc_flags=['--bounds-check', '--pointer-check', '--div-by-zero-check', '--undefined-shift-check', '--unwinding-assertions'],
+              functions=['parens.cpp:do_parens', 'parens.cpp:do_parens_assign', 'parens.cpp:do_parens_return'],
+              note='size_t check_level-- may wrap by design of the code (unsigned); chunk walks bounded by the navigation fuel',
+              mutants=[('assign_gate_dropped', r'if \(options::mod_full_paren_assign_bool\(\)\)', 'if (true)', 'postcondition')]),
+    ]
+    return [p] + gates + [q for q in nlguard_proofs.all_proofs() if q.name in ('SafeToDeleteNl', 'convert_brace')]
 
 
 EXPLANATION = ('Kernel of C04 (and C06-K4, C09-K6, C12-K3): the real driver uncrustify_file() with every pass replaced by a generated ghost stub: a code-modifying pass '
                '(rewrite_infinite_loops, remove_extra_semicolons, remove_extra_returns, change_int_types, remove_duplicate_include, pawn_scrub_vsemi, sort_imports, '
                'add_long_closebrace_comment, add_long_preprocessor_conditional_block_comment) runs only if the option documented to request it is set; with all of '
                'them at default none runs. output_text runs exactly once and last; an embedded NUL is refused first; encoding/BOM policy; check accounting.')
-K = ['K2 convert_brace (brace -> virtual brace, used by every brace-removing option): only brace chunks are converted, at most the adjacent newline is deleted and only when SafeToDeleteNl() allows it (otherwise the statement would move into a // comment)',
+K = ['K3 do_braces / do_parens / do_parens_assign / do_parens_return (called unconditionally by the driver): brace removal, brace insertion, if-chain rewriting, case braces, case-break / case-return moves and added parentheses each happen only under the option(s) documented to request them',
+     'K2 convert_brace (brace -> virtual brace, used by every brace-removing option): only brace chunks are converted, at most the adjacent newline is deleted and only when SafeToDeleteNl() allows it (otherwise the statement would move into a // comment)',
      'K1 uncrustify_file: gating of the nine code-modifying passes the driver calls', 'C06-K4 output once and last; embedded-NUL scan', 'C09-K6 encoding/BOM policy', 'C12-K3 check_fail_cnt']
-G = ['do_braces / do_parens* (called unconditionally; they gate internally on mod_full_brace_* / mod_paren_*, mod_case_brace, mod_move_case_*): NOT under contract yet',
-     'what each pass does once it runs (brace pairing, can_remove_braces, sorting permutes whole lines, balanced brackets): NOT proved; the mod_full_brace_if=remove defect quoted in the property lives there and is NOT detectable by this kernel',
+G = [     'what each pass does once it runs (brace pairing, can_remove_braces, sorting permutes whole lines, balanced brackets): NOT proved; the mod_full_brace_if=remove defect quoted in the property lives there and is NOT detectable by this kernel',
      'enum_cleanup (mod_enum_last_comma) runs inside tokenize_cleanup, outside the driver: not covered',
      'list primitives used by the mod passes do not lose tokens: C02-K1']
 
